@@ -342,6 +342,12 @@ package resolver
 //@   # authority may have tailored to one of them
 //@   assert at call (*middleware/resolver.SingleflightWrapper).TimedDoChanWithRole#1: arg2 == key && key == target + "|" + lastret("middleware/resolver.forwardedSubnet")
 //@   assert at call middleware/resolver.forwardedSubnet#1: arg0 == req
+//@   # C10 ("delivered only to the client whose query it answers ... shared upstream lookups"): the key is built from the
+//@   # question ITSELF (folded name, type, class) - no hash of it takes part, so different questions never share a lookup
+//@   assert at call (*middleware/resolver.SingleflightWrapper).TimedDoChanWithRole#1: calls("internal/cache.Key") == 0
+//@   assert at call strings.ToLower#1: arg0 == q.Name
+//@   assert at call strconv.Itoa#1: arg0 == int(q.Qtype)
+//@   assert at call strconv.Itoa#2: arg0 == int(q.Qclass)
 //@
 //@ # the first client-subnet option of the request's OPT, rendered with family, source length, scope and address
 //@ func forwardedSubnet
